@@ -8,5 +8,7 @@ import (
 	_ "verifmc/props/c15"
 	_ "verifmc/props/c25"
 	_ "verifmc/props/c26"
+	_ "verifmc/props/c30"
+	_ "verifmc/props/c33"
 	_ "verifmc/props/c35"
 )
